@@ -442,9 +442,124 @@ def run_fail_after_success(case):
             "second": bool(ok_first), "growth_objs": 100 * alive, "growth_refs": 0, "repeat": 1000}
 
 
+def run_super_proxy(case):
+    """The looked-up object is a ``super`` proxy (bound to an instance, bound to a class, or an instance of
+    a subclass of ``super``); the factory found for it returns an adapter / returns None / raises / mutates
+    the registry.  The lookup code unwraps the proxy (``__self__``): after ``repeat`` calls the reference
+    count of the underlying object must not have drifted, and it must die when we let go of it.
+    ``growth_refs`` = the drift, ``growth_objs`` = 100 if the object outlives us."""
+    import weakref
+    from zope.interface.adapter import AdapterRegistry
+    entry, kind, fac, flavour = case["entry"], case["kind"], case["fac"], case["flavour"]
+    n = int(case.get("repeat", 1000))
+    calls = {"n": 0}
+
+    @implementer(I1)
+    class A:
+        pass
+
+    class B(A):
+        pass
+
+    class S(super):
+        pass
+
+    holder = {}
+
+    def factory(ob):
+        calls["n"] += 1
+        if fac == "none":
+            return None
+        if fac == "raise":
+            raise Boom("factory")
+        if fac == "mutate":
+            holder["lk"].changed(None)
+        return ("adapted", type(ob).__name__)
+
+    if flavour == "AR":
+        lk = AdapterRegistry()
+        lk.register([I1], P1, "", factory)
+        lk.subscribe([I1], P1, factory)
+    else:
+        base_cls = LookupBase if flavour == "LB" else VerifyingBase
+
+        class Probe(base_cls):
+            def _uncached_lookup(self, required, provided, name=""):
+                return factory
+
+            def _uncached_subscriptions(self, required, provided):
+                return [factory]
+
+        lk = Probe()
+        if flavour == "VB":
+            class Reg:
+                pass
+
+            class Base:
+                _generation = 1
+
+            reg0 = Reg()
+            reg0.ro = [reg0, Base()]
+            lk._registry = reg0
+            lk.changed(None)
+    holder["lk"] = lk
+    under = B if kind == "cls" else B()
+
+    def proxy():
+        if kind == "cls":
+            return super(B, B)
+        return S(B, under) if kind == "sub" else super(B, under)
+
+    def once():
+        p = proxy()
+        if entry == "adapter_hook":
+            return lk.adapter_hook(P1, p, "", "dflt")
+        if entry == "queryAdapter":
+            return lk.queryAdapter(p, P1, "", "dflt")
+        if entry == "queryMultiAdapter":
+            return lk.queryMultiAdapter((p,), P1, "", "dflt")
+        return lk.subscribers((p,), P1)
+
+    shown, answer, bad = "", 0, 0
+    for _ in range(20):
+        try:
+            once()
+        except Boom:
+            pass
+        except Exception as e:   # noqa
+            bad += 1
+            shown = type(e).__name__ + ": " + str(e)[:80]
+    gc.collect()
+    rc0 = sys.getrefcount(under)
+    for _ in range(n):
+        try:
+            got = once()
+        except Boom:
+            answer = 3
+        except SystemError as e:
+            answer, shown = 5, "SystemError: " + str(e)[:80]
+        except Exception as e:   # noqa
+            bad += 1
+            shown = type(e).__name__ + ": " + str(e)[:80]
+    gc.collect()
+    drift = sys.getrefcount(under) - rc0
+    alive = 0
+    if kind != "cls":
+        w = weakref.ref(under)
+        del under
+        got = None
+        gc.collect()
+        alive = 1 if w() is not None else 0
+    return {"fired": 1 if calls["n"] else 0, "owned": True, "extras": [], "notes": [], "answer": 4 if (bad and answer != 5) else answer,
+            "shown": shown or "%d factory calls; refcount drift of the unwrapped object %d; alive afterwards: %d" % (calls["n"], drift, alive),
+            "second": not bad, "growth_objs": 100 * alive, "growth_refs": drift, "repeat": n}
+
+
 def run_case(case):
     if case.get("variant") == "fail_after_success":
         return run_fail_after_success(case)
+    if case.get("variant") == "super_proxy":
+        return run_super_proxy(case)
     sc = Scenario(case)
     if sc.entry == "iface_call" and sc.point == "provided_hash":
         return {"skip": "iface_call needs an interface as provided"}
